@@ -362,6 +362,9 @@ func (w *World) Deploy(name string, c *Compiled, data any) *Deployed {
 	if w.Alpha != w.Comm {
 		signers = append(signers, w.AlphaS)
 	}
+	if v := w.Validator.ScriptHash(); v != w.Comm && v != w.Alpha {
+		signers = append(signers, w.Validator) // everybody who has a say on the chain signs a deployment
+	}
 	inv := w.E.NewInvoker(mgmt, signers...)
 	tx := inv.PrepareInvoke(w.T, "deploy", nb, mb, data)
 	w.E.AddNewBlock(w.T, tx)
